@@ -786,39 +786,39 @@ def judge_arco(inp, obs, lr):
 
 CLAUSES = [
     Clause("gs_corr", "corr", gen_gs, run_gs, judge_gs, lean=lean_gs, site="utils.indefinite_orthogonalize",
-           budget={"quick": 120, "thorough": 4000},
+           budget={"quick": 240, "thorough": 4000},
            what="indefinite_orthogonalize(QᵀDQ, rational rows) by value vs the Lean Gram–Schmidt over ℚ (unnormalised rows and square-norms exact, normalised in float); signatures p+q ≤ 6, batch shapes, 1-d input"),
     Clause("find_isometry_corr", "corr", gen_fi, run_fi, judge_fi, lean=lean_fi, site="utils.find_isometry",
-           budget={"quick": 100, "thorough": 3000},
+           budget={"quick": 200, "thorough": 3000},
            what="find_isometry with the kernel basis captured from the implementation: Lean runs gs(partial) ++ gs(ker) exactly on it (by value), evaluates the kernel contract and M F Mᵀ − diag(±1) exactly; force_oriented"),
     Clause("diag_corr", "corr", gen_diag, run_diag, judge_diag, lean=lean_diag, site="utils.diagonalize_form",
-           budget={"quick": 120, "thorough": 4000},
+           budget={"quick": 240, "thorough": 4000},
            what="eigh output captured: Lean evaluates the eigh contract and WᵀBW, W·Winv exactly; the model's order (stable argsort) reproduces W, Winv by value; signs in the requested order; batches with mixed signatures; reverse; with_inverse"),
     Clause("diag_exact_corr", "corr", gen_diag_exact, run_diag_exact, judge_diag_exact, lean=lean_diag_exact, site="utils.diagonalize_form",
-           budget={"quick": 60, "thorough": 2000},
+           budget={"quick": 120, "thorough": 2000},
            what="diagonalizeForm executed over ℚ on the exact eigen-decomposition of QᵀDQ (distinct eigenvalues, |D| rational squares) vs W, Winv up to the sign of each eigenvector"),
     Clause("kernel_corr", "corr", gen_kernel, run_kernel, judge_kernel, lean=lean_kernel, site="utils.kernel / numerical.svd_kernel / orthogonal_complement",
-           budget={"quick": 120, "thorough": 4000},
+           budget={"quick": 240, "thorough": 4000},
            what="svd captured: model's row selection equals the returned basis exactly; svd contract, A·N, NᵀN−1 exactly; every rank 0..min(m,n) incl. trivial kernel; batches"),
     Clause("sphere_corr", "corr", gen_sphere, run_sphere, judge_sphere, lean=lean_sphere, site="utils.sphere_through / circle_through",
-           budget={"quick": 100, "thorough": 3000},
+           budget={"quick": 200, "thorough": 3000},
            what="rational points in general position, d = 1..5, batches: centre and radius vs exact ℚ model"),
     Clause("arcs_corr", "corr", gen_arcs, run_arcs, judge_arcs, lean=lean_arcs, site="utils.short_arc / right_to_left / arc_include",
-           budget={"quick": 150, "thorough": 5000},
+           budget={"quick": 300, "thorough": 5000},
            what="angle pairs on the stated ranges incl. unit shape and batches vs the Lean model over ℚ (π = the double np.pi)"),
     Clause("gs_oracle", "oracle", gen_gso, run_gso, judge_gso, site="utils.indefinite_orthogonalize / find_isometry",
-           budget={"quick": 250, "thorough": 8000},
+           budget={"quick": 500, "thorough": 8000},
            what="float forms of every signature p+q ≤ 6, well-conditioned rows, batches: orthogonality, norms ±1, flag of spans, signature, det > 0 on request"),
     Clause("diag_oracle", "oracle", gen_diago, run_diago, judge_diago, site="utils.diagonalize_form",
-           budget={"quick": 250, "thorough": 8000},
+           budget={"quick": 500, "thorough": 8000},
            what="float symmetric forms with |eigenvalues| in [0.3,3]: WᵀBW = diag(±1) in the requested order, W·Winv = 1; batches with mixed signatures; reverse"),
     Clause("kernel_oracle", "oracle", gen_kero, run_kero, judge_kero, site="utils.kernel / orthogonal_complement",
-           budget={"quick": 250, "thorough": 8000},
+           budget={"quick": 500, "thorough": 8000},
            what="float matrices of prescribed rank: annihilated, orthonormal, n − rank columns; orthogonal_complement with and without normalisation"),
     Clause("sphere_oracle", "oracle", gen_spho, run_spho, judge_spho, site="utils.sphere_through / circle_through",
-           budget={"quick": 200, "thorough": 6000},
+           budget={"quick": 400, "thorough": 6000},
            what="float points in general position: every point at distance radius from the centre"),
     Clause("arcs_oracle", "oracle", gen_arcs, run_arcs, judge_arco, site="utils.short_arc / right_to_left / arc_include",
-           budget={"quick": 300, "thorough": 10000},
+           budget={"quick": 600, "thorough": 10000},
            what="output is the input pair modulo 2π and the counter-clockwise arc is short / right-to-left / contains the reference"),
 ]
